@@ -1,7 +1,7 @@
 PROP = dict(
     id="C19",
     lean_modules=["TongoProofs.C19"],
-    gen=["TonConnectConsts"],
+    gen=["TonConnectConsts", "TonConnectMsg"],
     # the model IS the specification here: the signed digest layout, the MAC/expiry rule of the payload, the accept/
     # reject decision and the key returned are what the property states
     spec_ops=("tc.msg", "tc.payload", "tc.parse", "tc.check", "tc.domain", "prim.hmac256", "prim.sha256"),
